@@ -29,7 +29,8 @@ def load(path=PATH):
             head = head.strip()
             prop = head.split()[0].split("=", 1)[1]
             m = head[head.index("match=") + 6 :].strip()
-            out.append(dict(prop=prop, match=json.loads(m), text=text.strip()))
+            for pr in prop.split(","):  # one mechanism may surface under several properties
+                out.append(dict(prop=pr, match=json.loads(m), text=text.strip()))
     return out
 
 
@@ -43,6 +44,9 @@ def _match_one(key, want, rec):
     if key == "not_tags":
         have = set(rec.get("tags") or [])
         return not any(t in have for t in want)
+    if key == "info":
+        have = set(rec.get("info") or [])
+        return all(t in have for t in want)
     if key == "has_cls":
         have = set(rec.get("classes") or [])
         return any(t in have for t in want)
